@@ -1,7 +1,7 @@
 //@ unit R_core
 //@ props C14 C01 C09
 //@ strength proved-unbounded
-//@ min-verified 40
+//@ min-verified 53
 //@ assume slice lengths fit usize (ReadScope::new ensures wf only under data.len() <= usize::MAX)
 //@ assume arithmetic precondition of ReadScope::offset/offset_length: base + offset <= usize::MAX (holds on 64-bit targets for offsets read from <=32-bit fields; callers are not under contract)
 //@ unverified ReadScope::read/read_dep/read_cache/read_cache_state and ReadCtxt::read/read_dep (GAT-generic dispatch; exercised by Kani unit R_array)
